@@ -1,0 +1,21 @@
+//go:build verif
+// +build verif
+
+package buffered
+
+// Access to the write rate limiter's clock for the verification harness
+// (build tag verif only; property C13). The harness moves the limiter instead
+// of sleeping: both calls are what the passing of time / earlier writes do to it.
+
+// VerifUseUpTokens uses up the limiter's tokens, as writes in quick succession
+// do: the flush interval has not elapsed, the next write is queued.
+func VerifUseUpTokens(c *Conn) {
+	for i := 0; i < 1<<22 && !c.limit.Limit(); i++ {
+	}
+}
+
+// VerifGrantToken gives the limiter one token back, as the passing of one
+// flush interval does: the next write is not limited.
+func VerifGrantToken(c *Conn) {
+	c.limit.Undo()
+}
